@@ -11,6 +11,7 @@ from .lie_common import (lib_call, euler_ok, mrp_product_ok, algebra_corpus, gro
 
 PI = np.pi
 SHARDS = {"quick": 14, "thorough": 16}
+REQUIRED_REACH = ['SE3LieGroup.adjoint', 'SE23LieGroup.adjoint', 'SE2LieGroup.adjoint', 'SE3LieAlgebra.adjoint', 'SE23LieAlgebra.adjoint', 'SO3LieAlgebra.bracket', 'LieAlgebraDirectProduct.adjoint', 'RnLieGroup.adjoint']
 RULE = ("per group/algebra: random poses X, Y (rotation 0..pi, translations log-uniform 1e-6..10) and algebra vectors "
         "x, y, z (angle 0..2pi-0.05); Ad_X y vs vee(M(X) y^ M(X)^-1) with the oracle's matrices and a least-squares vee on the "
         "oracle's basis; ad_x y vs vee([x^,y^]); bracket antisymmetry and Jacobi; Ad_exp(x) vs expm(ad_x) (oracle ad); "
